@@ -131,7 +131,7 @@ def _prefix(rng, rich):
     return "/{tenant}" + rng.choice([".d", "b"])
 
 
-FALLBACK_EXTRA = ["", ", _c: &pavex::connection::ConnectionInfo", ", _p: &pavex::request::path::RawPathParams",
+FALLBACK_EXTRA = ["", ", _c: &pavex::connection::ConnectionInfo", ", _p: &pavex::request::path::RawPathParams<'_, '_>",
                   ", _b: pavex::request::body::RawIncomingBody"]
 
 
